@@ -10,6 +10,7 @@ from props.base import Context  # noqa: F401
 
 PID = 'C11'
 TIE_MODULES = ['DiffxVerif.Tie.Sections']
+NEEDS = ['sections']
 ASSUMPTIONS = [
     "CPython's re engine is environment: the three header regexes are re-expressed in Diffx.Header (structure?, keyOk, valOk) and validated against the real reader by exhaustive enumeration on every run",
     'the oracle is a regular expression written from docs/spec/section-format.rst, compiled independently of pydiffx',
@@ -24,7 +25,8 @@ HEADS = [b'#.change:', b'#.change', b'#.change :', b' #.change:', b'#.CHANGE:', 
          b'#.changes:', b'#:', b'#', b'#..change:', b'#.meta:', b'#.preamble:', b'#.diff:', b'##.change:', b'#.change::']
 OPTS = [b'', b' a=b', b' a=1', b' a=1, b=2', b' a=b,c=d', b' a=b,  c=d', b'  a=b', b' a=b ', b' a', b' =b', b' a=',
         b' a=-1', b' a=1_0', b' a=007', b' a=--1', b' a=1.0', b' a=text/plain', b' 1a=b', b' a-b_c=d', b' a=b=c',
-        b' length=3', b' a=1, a=2', b' a=\xc3\xa9', b' \xc3=a', b' a=' + b'9' * 4300, b' a=' + b'9' * 4301]
+        b' length=3', b' a=1, a=2', b' a=+1', b' a=+0', b' a=-+1', b' a=1e3', b' a=0x10', b' a=0b1', b' a=1.', b' a=.5',
+        b' a=1_', b' a=_1', b' a=1__0', b' a=\xd9\xa1', b' a=00', b' a=-0', b' a=-', b' a=+', b' a=\xc3\xa9', b' \xc3=a', b' a=' + b'9' * 4300, b' a=' + b'9' * 4301]
 
 
 def expected(line):
@@ -55,12 +57,21 @@ class Spec(object):
         for h in HEADS:
             for o in OPTS:
                 yield h + o
+        # exhaustive in value position and in key position (one more symbol than the
+        # whole-string enumeration reaches)
+        for n in range(0, maxlen):
+            for tup in itertools.product(ALPHABET, repeat=n):
+                x = b''.join(tup)
+                yield b'#.change: k=' + x
+                yield b'#.change: ' + x + b'=v'
+                yield b'#.change: a=b, k=' + x
         for _ in range(nrand):
             # structured random: mostly valid pairs with occasional damage
             pairs = []
             for _i in range(rng.randint(0, 5)):
                 k = rng.choice(['a', 'key', 'line_endings', 'X-y', 'a1', '9a', 'a b', '']).encode()
-                v = rng.choice(['b', '12', '-3', '1_000', 'text/plain', 'utf-8', 'a.b', 'a+b', '', 'x y', '0x10', '١٢']).encode('utf-8')
+                v = rng.choice(['b', '12', '-3', '1_000', 'text/plain', 'utf-8', 'a.b', 'a+b', '', 'x y', '0x10', '١٢', '+3', '+0',
+                                ' 7', '7 ', '1e3', '0o7', '--1', '٣']).encode('utf-8')
                 pairs.append(k + b'=' + v)
             sep = rng.choice([b', ', b', ', b', ', b',', b' , ', b',  '])
             yield rng.choice(HEADS[:1] * 6 + HEADS) + (b' ' + sep.join(pairs) if pairs else b'')
